@@ -19,6 +19,7 @@ import (
 	"io"
 	"math"
 	"path/filepath"
+	"sort"
 	"strings"
 
 	"github.com/google/pprof/internal/measurement"
@@ -78,21 +79,21 @@ func ComposeDot(w io.Writer, g *Graph, a *DotAttributes, c *DotConfig) {
 		}
 	}
 
-	edges := EdgeMap{}
+	var edges edgeList
 
 	// Add nodes and nodelets to DOT builder.
 	for _, n := range g.Nodes {
 		builder.addNode(n, nodeIDMap[n], maxFlat)
 		hasNodelets[n] = builder.addNodelets(n, nodeIDMap[n])
 
-		// Collect all edges. Use a fake node to support multiple incoming edges.
-		for _, e := range n.Out {
-			edges[&Node{}] = e
-		}
+		// Collect all edges in node order.
+		edges = append(edges, n.Out.Sort()...)
 	}
 
-	// Add edges to DOT builder. Sort edges by frequency as a hint to the graph layout engine.
-	for _, e := range edges.Sort() {
+	// Add edges to DOT builder. Sort edges by frequency as a hint to the graph
+	// layout engine; the sort is stable so that ties keep the node order.
+	sort.Stable(edges)
+	for _, e := range edges {
 		builder.addEdge(e, nodeIDMap[e.Src], nodeIDMap[e.Dest], hasNodelets[e.Src])
 	}
 }
